@@ -293,3 +293,78 @@ def gen_c_entry_points(rng, variant='exc'):
             S.append(eval_line('d', 'cxx', fn, sig, pt, di, cb))
             S.append(eval_line('d', 'c', fn, sig, pt, di, cb) + [cname])
     return Execution(S, variant=variant, label='c_entry_points')
+
+
+# ------------------------------------------------------------------------------------------------
+# value histories (C01-C09, C20): admissible random parameter assignments, every parameter drawn
+# independently, points in a bounded box
+# ------------------------------------------------------------------------------------------------
+def sgn(rng):
+    return rng.choice([-1.0, 1.0])
+
+
+def admissible_param(rng, sol, k):
+    u = lambda lo, hi: exact_double(rng, lo, hi)
+    if sol.startswith('heateq'):
+        if k in ('k_0', 'cp_0', 'rho', 'k_1', 'k_2', 'cp_1', 'cp_2'):
+            return u(0.3, 2.5)
+        return sgn(rng) * u(0.3, 2.5)
+    if k in ('L', 'Lx', 'Ly'):
+        return u(0.5, 3.0)
+    if k == 'Gamma':
+        return u(1.2, 1.7)
+    if k == 'R':
+        return u(0.5, 3.0)
+    if k in ('mu', 'k', 'nu'):
+        return sgn(rng) * u(0.05, 0.5)
+    if k.startswith('a_'):
+        return u(0.3, 2.5)
+    if k in ('rho_0',):
+        return u(1.0, 2.0)
+    if k in ('p_0',):
+        return u(1.0, 3.0)
+    if k.startswith('rho_') or k.startswith('p_'):
+        return sgn(rng) * u(0.05, 0.25)
+    if k.endswith('_0'):
+        return sgn(rng) * u(0.3, 1.5)
+    return sgn(rng) * u(0.1, 0.6)
+
+
+def value_point(rng, sol, sig):
+    n = sig.count('S')
+    axi = sol.startswith('axi')
+    pt = []
+    for i in range(n):
+        if axi and i == 0:
+            pt.append(exact_double(rng, 0.3, 2.0))
+        else:
+            pt.append(exact_double(rng, -2.0, 2.0))
+    nsp = CAT[sol]['dim'] if CAT[sol]['dim'] < 4 else 3
+    if n > nsp:
+        pt[-1] = exact_double(rng, 0.0, 2.0)
+    return [hexf(v) for v in pt]
+
+
+def gen_values(rng, sol, precs=('d', 'ld'), nassign=2, npts=3, evaluators=None, setter=None, variant='exc', paired=True):
+    """set every parameter to an admissible random value, then evaluate every provided evaluator at random
+    points; with paired=True the same assignment and points are used in both precisions (inputs are exact
+    doubles, so both instantiations receive identical mathematical inputs)."""
+    e = CAT[sol]
+    caps = [tuple(c) for c in e['caps']] if evaluators is None else evaluators
+    S = []
+    for p in precs:
+        S.append(['init', p, 'cxx', 'val', sol])
+    for _ in range(nassign):
+        vals = {k: (setter or admissible_param)(rng, sol, k) for k in e['pars']}
+        pts = []
+        for _ in range(npts):
+            order = list(caps); rng.shuffle(order)
+            for fn, sig in order:
+                dis = [rng.randint(-1, e['dim'] + 2)] if 'I' in sig else [None]
+                pts.append((fn, sig, value_point(rng, sol, sig), dis[0]))
+        for p in precs:
+            for k in e['pars']:
+                S.append(['setp', p, 'cxx', k, hexf(vals[k])])
+            for fn, sig, pt, di in pts:
+                S.append(eval_line(p, 'cxx', fn, sig, pt, di))
+    return Execution(S, variant=variant, label='values:%s' % sol)
